@@ -85,7 +85,7 @@ def orthogonal(rng, m):
 
 def carry(case):
     """the transformed instance is called the same way (same optional keywords, same argument types); its object history is its own"""
-    return {k: v for k, v in case.meta.items() if k in ("omit_all_sensors", "np_ints")}
+    return {k: v for k, v in case.meta.items() if k in ("omit_all_sensors", "np_ints", "dtype")}
 
 
 def transform_case(rng, case, tkind):
@@ -99,6 +99,9 @@ def transform_case(rng, case, tkind):
     if tkind == "scale":
         # no magnitude is special: half of the factors are far from 1
         a = 2.0 ** (rng.choice([-3, -2, -1, 1, 2, 3, 4]) if rng.random() < 0.5 else rng.choice([-70, -60, -52, -40, 40, 60]))
+        if case.meta.get("dtype") == "float32":
+            # a single-precision basis matrix keeps its squared norms inside the single-precision range
+            a = 2.0 ** rng.choice([-30, -10, -3, -2, 2, 3, 10, 30])
         c2 = OptCase(B * a, case.kind, costs=None if case.costs is None else case.costs * a, gqr=dict(case.gqr), meta=carry(case))
         return c2, (lambda r: r), {"transform": "scale", "factor": a}
     # relabel sensors: new sensor i is old sensor pi[i]
@@ -137,6 +140,12 @@ def run(ctx: C.Ctx):
         kind = fk or rng.choice(["qr", "ccqr", "gqr", "gqr"])
         case = make_case(rng, B, kind, fo)
         tkind = ft or rng.choice(["orth", "scale", "relabel"])
+        if case.kind in ("ccqr", "gqr") and tkind in ("scale", "relabel") and rng.random() < 0.3 \
+                and np.array_equal(B.astype(np.float32).astype(float), B):
+            # the same geometry stored in single precision (float32 snapshots are common): costs stay in the user's units, so the
+            # matrix must not be silently brought to other units before `norm − cost` is formed
+            case.meta["dtype"] = "float32"
+            ctx.count("basis_dtype:float32")
         ctx.evaluations += 1
         label = case.kind + (":" + case.gqr.get("constraint_option", "") if case.kind == "gqr" else "")
         ctx.count(f"{label}/{tkind}")
